@@ -594,7 +594,41 @@ async fn gen_history(rng: &mut Rng, o: &GenOpts) -> Hist {
                         let before = h.marks.last().and_then(|m| m.snap.as_ref()).map(|s| s.tip_hash);
                         let after = safe_snapshot(&n2).ok().map(|s| s.tip_hash);
                         if crashed {
-                            // the node goes on from whatever it came up with
+                            // the node goes on from what it came up with - provided that is a sound state: a
+                            // node that a listed finding has already put on another branch, behind its window
+                            // or on a ledger that is not the replay of its chain would hand that damage on to
+                            // every later crash point.  (The crash itself is judged anyway: it is one of the
+                            // torn crash points of the previous step.)
+                            let sound = match (safe_snapshot(&n2), before) {
+                                (Ok(sn), Some(bt)) => {
+                                    let on_old_chain = {
+                                        let mut cur = h.blocks.iter().position(|b| b.block.hash == bt);
+                                        let mut found = false;
+                                        while let Some(c) = cur {
+                                            if h.blocks[c].block.hash == sn.tip_hash {
+                                                found = true;
+                                                break;
+                                            }
+                                            cur = h.blocks[c].parent;
+                                        }
+                                        found
+                                    };
+                                    let t = tree_of(&h.blocks, h.params.genesis_period);
+                                    let c03: Vec<String> = std::panic::catch_unwind(AssertUnwindSafe(|| chainsim::oracle_c03(&t, &sn)))
+                                        .unwrap_or_else(|_| vec!["?".to_string()])
+                                        .into_iter()
+                                        .filter(|f| !f.starts_with("stored chain window ends"))
+                                        .collect();
+                                    on_old_chain && c03.is_empty() && supply_of(&n2) == h.issued
+                                }
+                                _ => false,
+                            };
+                            if !sound {
+                                let keep = h.marks.last().map(|m| m.journal_len).unwrap_or(0);
+                                n2.disk.lock().unwrap().journal.truncate(keep);
+                                node = n2;
+                                break;
+                            }
                             node = n2;
                             record(&mut h, &node, "crash-restart".to_string(), "Restart".to_string()).await;
                             continue;
@@ -1221,12 +1255,17 @@ fn judge(ctx: &Ctx, cp: &CrashPoint, out: &Result<Outcome, String>) -> Verdict {
     // different spendable set, missing supply and a different block set (orphans / batches: rejected files
     // are deleted; competing branch: it can be longer, so the purge horizon moves).  They do NOT explain an unknown tip, a produced block that is refused, a
     // directory that disagrees with blockchain.blocks, a non-empty queue or an unrecoverable pruned block.
+    // a torn file made the node fall back at least a whole genesis period: the window of the ancestor it
+    // came up on is no longer on disk, so its ledger cannot be complete (listed finding)
+    let wiped = v.tip_class == "ancestor" && cp.torn.is_some() && v.lost >= gp;
     let fail = |v: &mut Verdict, kind: Kind, id: Option<&'static str>, w: String| {
         let ledger = matches!(kind, Kind::Tip | Kind::Utxo | Kind::Supply | Kind::C03);
         if batch_gap && (ledger || kind == Kind::Blocks) {
             v.known.push((ID_BATCH, format!("{} (blocks with ids {:?} of a later batch were replayed although the batch holding their parent was aborted)", w, out.orphans)));
         } else if orphaned && (ledger || kind == Kind::Blocks) {
             v.known.push((ID_ORPHAN, format!("{} (blocks with ids {:?} were replayed while their parent was not stored)", w, out.orphans)));
+        } else if wiped && matches!(kind, Kind::Utxo | Kind::Supply | Kind::C03) {
+            v.known.push((ID_WIPE, format!("{} (a torn file made the node discard at least a whole window of later blocks)", w)));
         } else if forked && (ledger || kind == Kind::Blocks) {
             v.known.push((ID_FORK, format!("{} (the node restarted on a competing branch)", w)));
         } else if let Some(id) = id {
@@ -1337,7 +1376,7 @@ fn judge(ctx: &Ctx, cp: &CrashPoint, out: &Result<Outcome, String>) -> Verdict {
     // ---- valid chain (C03 replay oracle on the restarted node)
     // (one clause of that oracle - the stored window reaches down to tip - 2gp + 1 - does not apply to a node
     // that came up BEHIND the tip the running node had reached: the running node had already purged for
-    // its own, higher tip before the crash)
+    // its own, higher tip before the crash; nor in a history whose running node went through that itself)
     let running_tip_id = before
         .into_iter()
         .chain(std::iter::once(after))
@@ -1345,7 +1384,8 @@ fn judge(ctx: &Ctx, cp: &CrashPoint, out: &Result<Outcome, String>) -> Verdict {
         .max()
         .unwrap_or(0);
     for f in &out.c03 {
-        if f.starts_with("stored chain window ends") && s.tip_id < running_tip_id {
+        let after_crash_restart = h.marks[..=mi].iter().any(|m| m.what == "crash-restart");
+        if f.starts_with("stored chain window ends") && (s.tip_id < running_tip_id || after_crash_restart) {
             v.window_short = true;
             continue;
         }
